@@ -2,16 +2,49 @@
 C08 — inline lint filters change exactly the diagnostics they cover.
 Helper lemmas: Selene/Filter/Lemmas.lean.
 
-Status of the full statement `C08_machine` (for every laminar filter family the machine's output
-equals `Spec.verdict` mapped over the diagnostics): NOT YET PROVED in Lean.  What is proved
-here, for all inputs: diagnostics of lints no filter names are untouched (any filter family, laminar or
-not); a file without accepted filters is returned unchanged; the decision for a covered diagnostic
-ignores its incoming (configured) severity.  The full statement is exercised three-way (implementation / model /
-`Spec.verdict`) by the correspondence run on every generated program.
+`C08_machine` — the full statement — is proved: for every family of accepted filters whose inline
+members are the pre-order of a well-formed forest of code pieces (ranges nested or strictly apart, a
+nested piece starting after the enclosing one; any depth, any breadth, any number of filters per
+piece, any global filters interleaved), the push/pop machine never pops an empty stack and its output
+is `Spec.verdict` mapped over the diagnostics in order of position: innermost covering filter, else
+the first accepted global filter, else unchanged.  That the real `get_filter_ranges` only produces such
+families is checked on every program of the run (`forestOf`, `wfb_sound`).  Also proved, for all
+inputs laminar or not: diagnostics of lints no filter names are untouched; a file without accepted
+filters is returned unchanged; the decision for a covered diagnostic ignores its incoming severity.
+Proof files: Filter/Exec.lean (lazy replay = independent prefix executions), Filter/Forest.lean
+(prefix execution leaves the enclosing filters on the stack), Filter/Build.lean (ordered insertion of
+a pre-order = the structural instruction list), Filter/SpecForest.lean (innermost covering = first
+match on that stack), Filter/MachineProof.lean.
 -/
 import Selene.Filter.Lemmas
+import Selene.Filter.MachineProof
+import Selene.Filter.ForestOf
 namespace Selene.Props.C08
 open Selene.Filter
+
+/-- **C08 (machine = specification).** -/
+theorem C08_machine (entries : List RangeEntry) (fc : Option Nat) (ds : List Diag) (F : Forest) (hi : Nat)
+    (hF : (filtersOf entries).filter (fun f => !f.cfg.global) = F.filters) (hwf : F.WF 0 hi)
+    (hne : (filtersOf entries).isEmpty = false) :
+    (filterDiagnostics entries fc ds).map (·.diags) =
+      some ((sortDiags ds).filterMap (Spec.verdict (filtersOf entries) fc)) :=
+  machine_eq_spec entries fc ds F hi hF hwf hne
+
+/-- the same with the hypothesis in its executable form (what the driver evaluates on every program) -/
+theorem C08_machine_checked (entries : List RangeEntry) (fc : Option Nat) (ds : List Diag) (F : Forest)
+    (h : forestOf ((filtersOf entries).filter fun f => !f.cfg.global) = some F)
+    (hne : (filtersOf entries).isEmpty = false) :
+    (filterDiagnostics entries fc ds).map (·.diags) =
+      some ((sortDiags ds).filterMap (Spec.verdict (filtersOf entries) fc)) := by
+  unfold forestOf at h
+  simp only at h
+  split at h
+  · rename_i hc
+    simp only [Bool.and_eq_true, beq_iff_eq] at hc
+    injection h with h
+    subst h
+    exact machine_eq_spec entries fc ds _ _ hc.2.symm (Forest.wfb_sound _ _ _ hc.1.2) hne
+  · simp at h
 
 /-- **C08 (others untouched).** A diagnostic of a lint that no filter comment of the file names —
 inline or global, accepted, late or conflicting — is reported exactly as without the comments,
@@ -82,6 +115,15 @@ example :
                            { code := "z", start := 6, sev := .warning, tag := "c" }]
     (filterDiagnostics (fs.map .ok) none ds).map (·.diags) =
       some ((sortDiags ds).filterMap (Spec.verdict fs none)) := by
+  decide
+
+/-- hypotheses of `C08_machine_checked` are met by a family with two filters on one piece, a nested piece,
+    a sibling and a global filter -/
+example :
+    let g : Filter := { cfg := { global := true, lint := "x", sev := .warning }, commentRange := (0, 0), range := (0, 30) }
+    let fs := [g, flt "x" .allow 0 20, flt "y" .error 0 20, flt "x" .error 5 10, flt "y" .allow 22 30]
+    (forestOf ((filtersOf (fs.map .ok)).filter fun f => !f.cfg.global)).isSome = true ∧
+      (filtersOf (fs.map RangeEntry.ok)).isEmpty = false := by
   decide
 
 end Selene.Props.C08
